@@ -223,7 +223,7 @@ impl FaultKind {
         match self {
             FaultKind::Error => true,
             FaultKind::ShortThenError { .. } => matches!(op, OpKind::Read | OpKind::Write),
-            // C16 injects EINTR on transfers only; C15 also on seek/flush inside finalize
+            // EINTR may hit any operation kind (C15, and since round 10 C16)
             FaultKind::Interrupted => true,
             FaultKind::WriteZero | FaultKind::NoSpace => op == OpKind::Write,
             FaultKind::Mutate(_) => true,
@@ -592,7 +592,7 @@ impl Write for SimDisk {
         };
         if let Pre::Fail(e) = pre {
             op.ok = false;
-            op.err = 1;
+            op.err = if e.kind() == ErrorKind::Interrupted { 2 } else { 1 };
             ctx.log_op(op);
             return Err(e);
         }
@@ -624,7 +624,7 @@ impl Seek for SimDisk {
         };
         if let Pre::Fail(e) = pre {
             op.ok = false;
-            op.err = 1;
+            op.err = if e.kind() == ErrorKind::Interrupted { 2 } else { 1 };
             ctx.log_op(op);
             return Err(e);
         }
@@ -791,7 +791,7 @@ impl Write for PipeSink {
         };
         if let Pre::Fail(e) = pre {
             op.ok = false;
-            op.err = 1;
+            op.err = if e.kind() == ErrorKind::Interrupted { 2 } else { 1 };
             ctx.log_op(op);
             return Err(e);
         }
